@@ -87,10 +87,12 @@ def build_cores(spec):
             c[0, :, :, 0] += np.eye(rows[i])
         if spec.get("int_storage") and vals[i] == "ints" and not cplx_per_core[i] and not spec.get("neardiag"):
             c = c.astype(np.int64)      # integer-valued cores handed over as int64 arrays (e.g. 0/1 gate tensors)
+        if spec.get("single"):
+            c = c.astype(np.complex64 if np.iscomplexobj(c) else np.float32)   # single-precision storage
         cores.append(relayout(c, lay[i]))
     scale = spec.get("scale")
     if scale:
-        cores[0] = cores[0] * scale
+        cores[0] = cores[0] * (np.float32(scale) if spec.get("single") else scale)
     return cores
 
 
@@ -141,7 +143,7 @@ def rand_spec(rnd, order=None, kind=None, max_order=4, max_rank=6, layouts=("C",
         kind = rnd.choice(("vector", "vector", "square", "general"))
     rows, cols = rand_dims(rnd, order, kind, sizes)
     ranks = rand_ranks(rnd, rows, cols, max_rank)
-    return {
+    spec = {
         "rows": rows, "cols": cols, "ranks": ranks,
         # all real, all complex, or (15 %) a mixture of real and complex cores in one train
         "dtype": ([rnd.choice(("f8", "c16")) for _ in range(order)] if rnd.random() < 0.15 and 0.0 < cplx_p
@@ -151,3 +153,9 @@ def rand_spec(rnd, order=None, kind=None, max_order=4, max_rank=6, layouts=("C",
         "int_storage": rnd.random() < 0.2,
         "sub_seed": rnd.getrandbits(48),
     }
+    u = rnd.random()
+    if u < 0.06:
+        spec["scale"] = rnd.choice((1e60, 1e-60, 1e25, 1e-25))     # very large / very small overall magnitude
+    elif u < 0.12:
+        spec["single"] = True                                       # float32 / complex64 cores
+    return spec
